@@ -1,0 +1,19 @@
+//go:build verif
+
+package overlay
+
+import (
+	"net/netip"
+
+	"github.com/slackhq/nebula/config"
+)
+
+// VerifParseRoutes exposes parseRoutes to the verification harness (engine routes).
+func VerifParseRoutes(c *config.C, networks []netip.Prefix) ([]Route, error) {
+	return parseRoutes(c, networks)
+}
+
+// VerifParseUnsafeRoutes exposes parseUnsafeRoutes to the verification harness (engine routes).
+func VerifParseUnsafeRoutes(c *config.C, networks []netip.Prefix) ([]Route, error) {
+	return parseUnsafeRoutes(c, networks)
+}
